@@ -1,4 +1,4 @@
-import ProductMD.Proofs.ImagesLoadExact
+import ProductMD.Proofs.ImagesBytes
 /-!
 # C02 — image manifests survive a write/read cycle unchanged
 
@@ -58,7 +58,7 @@ record equal, an object filed in k cells comes back as k equal records — with 
 and the current format version.
 
 Full statement without `Uniq` is false of the code (F11, `C02_F11_witness`); without `ProperInts` the bytes of a
-second dump differ (F19, `C02_bool_int_witness`).
+second dump differ (F22, `C02_bool_int_witness`).
 -/
 theorem C02_readback_partial (m : ImgState)
     (hc : m.compose.validate = .ok ())
@@ -186,6 +186,120 @@ theorem C02_cycle_closed (m m' : ImgState)
     exact hu i (hall.mem_iff.mp h1) j (hall.mem_iff.mp h2) hid
   · rw [hcomp]; exact composeNorm_idem _
 
+/-! ### bytes -/
+
+/-- the document the writer produces, spelled out -/
+theorem serialize_doc (m : ImgState) (cd : PyVal) (hcd : m.compose.serialize = .ok cd)
+    (hi : ∀ i ∈ m.cells.all, i.validate = .ok ()) :
+    (serialize m).2 = .ok (.dict [(L "header", .dict [(L "type", .str Gen.HEADER_TYPE_Images), (L "version", .str currentVersion)]),
+      (L "payload", .dict [(L "images", (outFold (triples m.cells) []).toPy), (L "compose", cd)])]) := by
+  have hvalid : ∀ va ∈ m.cells, ∀ ac ∈ va.2, ∀ e ∈ ac.2, e.2.validate = .ok () :=
+    fun va h1 ac h2 e h3 => hi _ (mem_all_of_entry h1 h2 h3)
+  simp only [serialize, cur_header_valid, hcd, serializeCells_eq m.cells [] hvalid, bind, Except.bind]
+
+/-- the normalised compose section is written exactly as the original -/
+theorem compose_serialize_norm (c : Compose) (h : c.validate = .ok ()) : (composeNorm c).serialize = c.serialize := by
+  obtain ⟨hn, hv⟩ := norm_valid c h
+  cases hl : c.label.truthy
+  · rw [hn] at hv ⊢
+    simp only [hl, Bool.false_eq_true, ↓reduceIte] at hv ⊢
+    simp only [Compose.serialize, hv, h, hl, bind, Except.bind]
+    rfl
+  · rw [hn]; simp only [hl, ↓reduceIte]
+
+/--
+**C02_fixpoint.**  Under the hypotheses of `C02_readback_partial` and distinct paths inside every cell: the manifest
+read back from the written document is written to a document with the **same bytes** (`JsonText.dumps` = the text of
+`json.dump(indent=4, sort_keys=True)`); the two documents may differ in the order of dict entries only.
+-/
+theorem C02_fixpoint (m : ImgState)
+    (hc : m.compose.validate = .ok ())
+    (hi : ∀ i ∈ m.cells.all, i.validate = .ok () ∧ ProperInts i)
+    (ha : ∀ t ∈ triples m.cells, Gen.RPM_ARCHES.contains t.2.1 = true ∧ refusedArches.contains t.2.1 = false)
+    (hu : Uniq m.cells) (hd : DistinctPaths m.cells)
+    (doc : PyVal) (m' : ImgState) (h1 : (serialize m).2 = .ok doc) (h2 : deserialize doc = .ok m') :
+    ∃ doc', (serialize m').2 = .ok doc' ∧ PyVal.canon doc' = PyVal.canon doc ∧ JsonText.dumps doc' = JsonText.dumps doc := by
+  obtain ⟨doc0, m0, hs0, hd0, hperm, hcomp, _⟩ := C02_readback_partial m hc hi ha hu
+  rw [h1] at hs0; injection hs0 with hs0; subst hs0
+  rw [h2] at hd0; injection hd0 with hd0; subst hd0
+  obtain ⟨hc', hi', _, _, _⟩ := C02_cycle_closed m m' hc hi ha hu hperm hcomp
+  obtain ⟨cd, hcd⟩ : ∃ cd, m.compose.serialize = .ok cd := by
+    simp only [Compose.serialize, hc, bind, Except.bind]; exact ⟨_, rfl⟩
+  have hcd' : m'.compose.serialize = .ok cd := by rw [hcomp, compose_serialize_norm _ hc, hcd]
+  have hdoc := serialize_doc m cd hcd (fun i h => (hi i h).1)
+  have hdoc' := serialize_doc m' cd hcd' (fun i h => (hi' i h).1)
+  rw [h1] at hdoc; injection hdoc with hdoc
+  have htab : PyVal.canon (outFold (triples m'.cells) []).toPy = PyVal.canon (outFold (triples m.cells) []).toPy := by
+    refine (toPy_canon_perm (triples m.cells) (triples m'.cells) hperm.symm ?_).symm
+    intro v a
+    have := hd v a
+    simp only [dictsFor, List.map_map]
+    have e : (pathKey ∘ fun t : Str × Str × Image => t.2.2.dict) = fun t => pathStr t.2.2 := by
+      funext t; simp only [Function.comp, pathKey_dict, pathStr]; rfl
+    rw [e]; exact this
+  have hcanon : PyVal.canon (.dict [(L "header", .dict [(L "type", .str Gen.HEADER_TYPE_Images), (L "version", .str currentVersion)]),
+      (L "payload", .dict [(L "images", (outFold (triples m'.cells) []).toPy), (L "compose", cd)])]) = PyVal.canon doc := by
+    rw [hdoc]
+    apply canon_dict_congr
+    simp only [List.map_cons, List.map_nil, List.cons.injEq, Prod.mk.injEq, true_and, and_true]
+    apply canon_dict_congr
+    simp only [List.map_cons, List.map_nil, htab]
+  exact ⟨_, hdoc', hcanon, dumps_congr hcanon⟩
+
+/-- `loads(text)` then `dumps()`, with `parse` standing for `json.load` -/
+def reloadDumps (parse : Str → Except Err PyVal) (t : Str) : Except Err Str :=
+  parse t >>= fun doc => loads doc >>= fun m' => (dumps m').2
+
+/--
+**C02_bytes.**  The text returned by `dumps()`, read by `loads` and dumped again, is the same text, byte for byte.
+`parse` stands for `json.load`; that it returns the document that was printed is the explicit hypothesis `hjson`
+(trusted stdlib; exercised by every generated case, where the real `loads` runs on the real text).
+-/
+theorem C02_bytes (parse : Str → Except Err PyVal) (m : ImgState)
+    (hc : m.compose.validate = .ok ())
+    (hi : ∀ i ∈ m.cells.all, i.validate = .ok () ∧ ProperInts i)
+    (ha : ∀ t ∈ triples m.cells, Gen.RPM_ARCHES.contains t.2.1 = true ∧ refusedArches.contains t.2.1 = false)
+    (hu : Uniq m.cells) (hd : DistinctPaths m.cells)
+    (hjson : ∀ doc, (serialize m).2 = .ok doc → parse (JsonText.dumps doc) = .ok doc)
+    (t : Str) (ht : (dumps m).2 = .ok t) : reloadDumps parse t = .ok t := by
+  obtain ⟨doc, m', hs, hde, _, _, _⟩ := C02_readback_partial m hc hi ha hu
+  obtain ⟨doc', hs', hcan, hbytes⟩ := C02_fixpoint m hc hi ha hu hd doc m' hs hde
+  -- the first dump
+  have hdumps : ∀ (x : ImgState) (dx : PyVal), (serialize x).2 = .ok dx →
+      (dumps x).2 = (if jsonSafe dx then .ok (JsonText.dumps dx) else .error .typeError) := by
+    intro x dx hx
+    unfold dumps
+    rw [C02_images_no_validators]
+    simp only
+    cases hsx : serialize x with
+    | mk sx r =>
+      rw [hsx] at hx
+      simp only at hx
+      subst hx
+      rfl
+  rw [hdumps m doc hs] at ht
+  cases hsafe : jsonSafe doc
+  · rw [hsafe] at ht; cases ht
+  · rw [hsafe] at ht
+    injection ht with ht
+    subst ht
+    have hsafe' : jsonSafe doc' = true := by rw [jsonSafe_of_canon_eq hcan]; exact hsafe
+    unfold reloadDumps
+    simp only [hjson doc hs, loads, hde, C02_images_no_validators, bind, Except.bind]
+    rw [hdumps m' doc' hs', hsafe', hbytes]
+    rfl
+
+/-- a decidable sufficient form of `DistinctPaths`: any two filings under the same variant and arch differ in path -/
+theorem distinctPaths_of_pairwise (cs : Cells)
+    (h : (triples cs).Pairwise fun x y => x.1 = y.1 → x.2.1 = y.2.1 → pathStr x.2.2 ≠ pathStr y.2.2) : DistinctPaths cs := by
+  intro v a
+  unfold List.Nodup
+  rw [List.pairwise_map, List.pairwise_filter]
+  refine h.imp ?_
+  intro x y hxy hx hy
+  simp only [Bool.and_eq_true, beq_iff_eq] at hx hy
+  exact hxy (hx.1.trans hy.1.symm) (hx.2.trans hy.2.symm)
+
 /-! ### the excluded regions are real (witnesses), and the hypotheses are satisfiable -/
 
 def errIs {α : Type} (r : Except Err α) (e : Err) : Bool :=
@@ -220,7 +334,7 @@ theorem C02_F11_witness :
     ∧ errIs (match (serialize wF11).2 with | .ok doc => deserialize doc | .error _ => .ok default) .valueError = true := by
   refine ⟨by rfl, by decide +kernel⟩
 
-/-- **F19**: a bool passes as the size, is written as `true` and read back as `1` -/
+/-- **F22**: a bool passes as the size, is written as `true` and read back as `1` -/
 theorem C02_bool_int_witness :
     Image.validate { wA with size := .bool true } = .ok ()
     ∧ errIs ((Image.deserialize (.str currentVersion) (Image.dict { wA with size := .bool true })).bind
@@ -241,5 +355,12 @@ example : ∀ i ∈ wGood.cells.all, i.validate = .ok () ∧ ProperInts i := by
 /-- … and the model really performs the cycle on it: the document is read back and the second document is identical -/
 example : errIs (match (serialize wGood).2 with | .ok doc => deserialize doc | .error _ => .error .other) .valueError = false := by
   decide +kernel
+
+example : DistinctPaths wGood.cells := distinctPaths_of_pairwise _ (by decide +kernel)
+/-- the model's own cycle on a one-image manifest: the second text equals the first -/
+example : let w : ImgState := { compose := wCompose, cells := [(L "Server", [(L "x86_64", [(0, wC)])])] }
+    (dumps w).2 = (match (serialize w).2 with
+    | .ok doc => (match deserialize (PyVal.canon doc) with | .ok m' => (dumps m').2 | .error e => .error e)
+    | .error e => .error e) := by decide +kernel
 
 end PM
